@@ -239,3 +239,48 @@ func genConfig(r *Rng, mode string) Config {
 }
 
 func (c Config) String() string { return fmt.Sprintf("cfg{%s}", c.Key()) }
+
+// parserSide: c with everything that only configures the renderer side cleared.
+func parserSide(c Config) Config {
+	c.Unsafe, c.XHTML, c.HardWraps = false, false, false
+	c.TableAlign, c.FootnoteOpt = "", ""
+	if c.CJK != "" {
+		c.CJK = "default"
+	}
+	return c
+}
+
+// rendererVariant returns a configuration whose PARSER side is exactly c's and whose renderer
+// side differs: renderer options (Unsafe, XHTML, HardWraps) and the renderer-only options of
+// extensions (table cell alignment method, footnote ids / titles / classes, East Asian line
+// break style; see each extension's Extend). A tree parsed under c and rendered by the
+// Renderer of the variant must give what the variant gives for the source.
+func rendererVariant(r *Rng, c Config) Config {
+	v := c
+	for i := 0; i < 8 && v == c; i++ {
+		switch r.Intn(6) {
+		case 0:
+			v.Unsafe = !v.Unsafe
+		case 1:
+			v.XHTML = !v.XHTML
+		case 2:
+			v.HardWraps = !v.HardWraps
+		case 3:
+			if c.GFM {
+				v.TableAlign = pick(r, []string{"", "style", "attribute", "none"})
+			}
+		case 4:
+			if c.Footnote {
+				v.FootnoteOpt = pick(r, []string{"", "prefix", "prefixfn", "titles"})
+			}
+		case 5:
+			if c.CJK != "" { // all three have the escaped-space parser option
+				v.CJK = pick(r, []string{"default", "css3", "escaped"})
+			}
+		}
+	}
+	if r.Chance(1, 3) {
+		v.XHTML = !v.XHTML
+	}
+	return v
+}
